@@ -64,6 +64,13 @@
 /** FIXME: this is used very limitedly. Consider its removal */
 #define MAX_THREADS_EXP 12
 /// Maximum number of threads that can be supported
+#if defined(ROOT_SIM_CORE_VERIF) && defined(VERIF_MAX_NODES) && defined(VERIF_MAX_THREADS_EXP)
+/* verification hook H4: shrunk static table sizes for bounded symbolic checking */
+#undef MAX_NODES
+#undef MAX_THREADS_EXP
+#define MAX_NODES VERIF_MAX_NODES
+#define MAX_THREADS_EXP VERIF_MAX_THREADS_EXP
+#endif
 #define MAX_THREADS (1 << MAX_THREADS_EXP)
 
 /// Used to identify in a node the computing resources (threads at the moment)
